@@ -14,6 +14,8 @@ Both directions are obligations: "encrypted => the file-encrypted error, before
 any content / any member read" and "file-encrypted error => encrypted".
 """
 import ast
+import os
+import sys
 
 import z3
 
@@ -329,6 +331,8 @@ def install_container_models(reg):
     reg.method_models[("Blob", "decode")] = m_blob_decode
     reg.ext_models["struct.Struct"] = m_struct_new
     reg.method_models[("Struct", "unpack_from")] = m_struct_unpack_from
+    reg.ext_models["struct.unpack_from"] = m_struct_unpack_from_fn
+    reg.ext_models["struct.unpack"] = m_struct_unpack_fn
 
 
 STRUCT_FMT = {}     # z3 id of a Struct constant -> format string (filled when the module-level `struct.Struct("<H")` is evaluated)
@@ -342,28 +346,54 @@ def m_struct_new(ex, st, args, kwargs, node):
     return [(st, s_)]
 
 
+def _unpack_le(ex, st, fmt, buf, off, node, exact=False):
+    """ASSUMED semantics of the struct module for little-endian unsigned fields ('<' + B/H/I/Q...): struct.error unless
+    off + size <= len(buf) (exact: == len(buf)); field value = sum(buf[pos+k] * 256**k)."""
+    if not (isinstance(fmt, str) and len(fmt) >= 2 and fmt[0] == "<" and all(ch in _SIZES for ch in fmt[1:])
+            and isinstance(buf, VSeq) and buf.is_bytes and isinstance(off, VInt)):
+        return ex.havoc_call(st, f"struct unpack {fmt!r}", [], node)
+    total = sum(_SIZES[ch] for ch in fmt[1:])
+    o = ops.int_term(off)
+    bad = z3.Or(o < 0, o + total != buf.length) if exact else z3.Or(o < 0, o + total > buf.length)
+    st2 = ex.fork_raise(st, bad, "struct.error")
+    if st2 is None:
+        return []
+    vals, pos = [], 0
+    for ch in fmt[1:]:
+        bs = [ops.int_term(buf.elem(o + pos + k)) for k in range(_SIZES[ch])]
+        st2.assume(z3.And([z3.And(b >= 0, b <= 255) for b in bs]))
+        vals.append(VInt(z3.Sum([b * (256 ** k) for k, b in enumerate(bs)]) if len(bs) > 1 else bs[0]))
+        pos += _SIZES[ch]
+    return [(st2, VTuple(vals))]
+
+
 def m_struct_unpack_from(ex, st, obj, args, kwargs, node):
-    """struct.Struct('<X').unpack_from(buf, off): ASSUMED semantics of the struct module for one little-endian
-    unsigned field: struct.error unless off + size <= len(buf); the value is sum(buf[off+k] * 256**k)."""
     fmt = STRUCT_FMT.get(obj.t.get_id())
     buf = args[0] if args else None
     off = args[1] if len(args) > 1 else kwargs.get("offset", VInt(0))
-    if not (fmt and len(fmt) == 2 and fmt[0] == "<" and fmt[1] in _SIZES and isinstance(buf, VSeq) and buf.is_bytes and isinstance(off, VInt)):
-        return ex.havoc_call(st, f"Struct({fmt}).unpack_from", args, node)
-    size = _SIZES[fmt[1]]
-    o = ops.int_term(off)
-    st2 = ex.fork_raise(st, z3.Or(o < 0, o + size > buf.length), "struct.error")
-    if st2 is None:
-        return []
-    bs = [ops.int_term(buf.elem(o + k)) for k in range(size)]
-    st2.assume(z3.And([z3.And(b >= 0, b <= 255) for b in bs]))
-    return [(st2, VTuple([VInt(z3.Sum([b * (256 ** k) for k, b in enumerate(bs)]))]))]
+    return _unpack_le(ex, st, fmt, buf, off, node)
+
+
+def m_struct_unpack_from_fn(ex, st, args, kwargs, node):
+    fmt = args[0].const() if args and isinstance(args[0], VStr) else None
+    buf = args[1] if len(args) > 1 else kwargs.get("buffer")
+    off = args[2] if len(args) > 2 else kwargs.get("offset", VInt(0))
+    return _unpack_le(ex, st, fmt, buf, off, node)
+
+
+def m_struct_unpack_fn(ex, st, args, kwargs, node):
+    fmt = args[0].const() if args and isinstance(args[0], VStr) else None
+    buf = args[1] if len(args) > 1 else None
+    return _unpack_le(ex, st, fmt, buf, VInt(0), node, exact=True)
 
 
 INLINE_METHODS = {"_get_stream"}
 
 
 # ----------------------------------------------------------------- executor --
+LOOP_RULES = {}      # (element kind, origin tag) -> LoopSpec; filled next to the specs they belong to
+
+
 class VGen(VUnk):
     """Lazy generator expression over symbolic sequences (consumed by any()/all())."""
     __slots__ = ("vars", "cond", "elt")
@@ -388,10 +418,25 @@ class C08Executor(readfile.ReadFileExecutor):
         super().__init__(*a, **kw)
         self.merge_after_check = merge_after_check
 
+    def _rejection_site(self, stmt):
+        """The statement that rejects encrypted input: the `if ...: raise <encrypted error>` itself, or a statement calling a
+        same-module helper that contains one (only used to decide where state merging may start: precision/cost, not soundness)."""
+        if raises_encrypted(stmt):
+            return True
+        if isinstance(stmt, (ast.Expr, ast.Assign, ast.AnnAssign, ast.If)):
+            probe = stmt.test if isinstance(stmt, ast.If) else stmt
+            for n in ast.walk(probe):
+                if isinstance(n, ast.Call) and isinstance(n.func, (ast.Name, ast.Attribute)):
+                    nm = n.func.id if isinstance(n.func, ast.Name) else n.func.attr
+                    h = self.module.functions.get(nm) or next((f_ for q_, f_ in self.module.functions.items() if q_.endswith("." + nm) and "<locals>" not in q_), None)
+                    if h is not None and any(isinstance(r, ast.Raise) and r.exc is not None and ENCERR in ast.unparse(r.exc) for r in ast.walk(h)):
+                        return True
+        return False
+
     def exec_block(self, stmts, st):
         if self.merge_after_check and not self.merge and self.inline_depth == 0:
             for idx, s_ in enumerate(stmts):
-                if raises_encrypted(s_) and idx + 1 < len(stmts):
+                if self._rejection_site(s_) and idx + 1 < len(stmts):
                     outs = super().exec_block(stmts[:idx + 1], st)
                     falls = [o.st for o in outs if o.kind == "fall"]
                     res = [o for o in outs if o.kind != "fall"]
@@ -426,11 +471,120 @@ class C08Executor(readfile.ReadFileExecutor):
         return [(st, VInt(z3.If(n == 2, two, z3.If(n == 1, e0, z3.If(n == 0, z3.IntVal(0), other)))))]
 
     def obj_method(self, st, obj, name, args, kwargs, node):
-        if not self.inline_calls and name not in INLINE_METHODS and self.reg.get(f"{self.module.rel}::{st.obj(obj.ref).cls}.{name}") is None:
-            return self.havoc_call(st, f"method:{name}", [obj] + list(args), node)
+        q = f"{st.obj(obj.ref).cls}.{name}"
+        if not self.inline_calls and name not in INLINE_METHODS and self.reg.get(f"{self.module.rel}::{q}") is None:
+            fnode = self.module.functions.get(q)
+            small = fnode is not None and sum(1 for _ in ast.walk(fnode)) <= 700 and not any(fnode is x for x in self.cur_fn_stack)
+            if not (self.inline_local and small and self.inline_depth < 3 and self._relevant_helper(q)):
+                return self.havoc_call(st, f"method:{name}", [obj] + list(args), node)
         return super().obj_method(st, obj, name, args, kwargs, node)
 
+    def havoc_call(self, st, what, args, node):
+        self._imprecise(f"un-modelled call {str(what)[:40]}")
+        return super().havoc_call(st, what, args, node)
+
+    def resolve_dotted(self, dotted_):
+        # `from package import module [as m]` / `import package.module as m`: a module of the library, not an unknown
+        if dotted_.startswith("sharepoint2text.") and os.path.exists(os.path.join(self.module.repo, dotted_.replace(".", "/") + ".py")) \
+                and ("const", dotted_) not in self.reg.ext_models:
+            from pyvc.values import VMod
+            return VMod(dotted_)
+        return super().resolve_dotted(dotted_)
+
+    RELEVANT = ("ExtractionFileEncryptedError", "Encrypted7zFile", "_encrypted", "needs_password", "decrypt", "patch_pypdf_fallback_aes",
+                "flag_bits", "is_encrypted", "CODER_AES_PREFIX", "FIB_ENCRYPTED_FLAG")
+
+    def _relevant_helper(self, name, depth=0):
+        """Does this same-module helper (or one it calls, two levels) take part in encryption detection?  Only such helpers are
+        executed in place under inline_local; all others stay EXC-ANY calls (sound either way: this is a cost/precision choice)."""
+        cache = self.module.__dict__.setdefault("_c08_relevant", {})
+        if name in cache:
+            return cache[name]
+        fnode = self.module.functions.get(name)
+        if fnode is None:
+            return False
+        cache[name] = False
+        src = ast.unparse(fnode)
+        ok = any(tok in src for tok in self.RELEVANT)
+        if not ok and depth < 2:
+            called = {n.func.id for n in ast.walk(fnode) if isinstance(n, ast.Call) and isinstance(n.func, ast.Name)}
+            ok = any(c in self.module.functions and c != name and self._relevant_helper(c, depth + 1) for c in called)
+        cache[name] = ok
+        return ok
+
+    def local_helper(self, f):
+        r = super().local_helper(f) and self._relevant_helper(f.b)
+        if r and os.environ.get("C08_TRACE_INLINE"):
+            print(f"[inline_local] {self.contract.target.split('::')[-1] if self.contract else '?'} <- {f.b}", file=sys.stderr, flush=True)
+        return r
+
+    def symbolic_for(self, s, st, it):
+        self._loop_subject = ("for", it, st)
+        return super().symbolic_for(s, st, it)
+
+    def s_While(self, s, st):
+        self._loop_subject = ("while", None, st)
+        return super().s_While(s, st)
+
+    def _imprecise(self, why):
+        if self.contract is not None:
+            self.contract.__dict__.setdefault("_imprecise", []).append(why)
+
+    def loop_spec(self, node):
+        r = self._loop_spec(node)
+        if isinstance(node, (ast.For, ast.While)):
+            self._imprecise(f"loop at line {node.lineno} cut " + ("by an invariant (a failing VC may only mean the invariant is too weak for this shape)"
+                                                                   if r is not None else "without an invariant"))
+        return r
+
+    def _loop_spec(self, node):
+        """Invariants follow the data, not the position of the loop: a `for` gets the rule of the sequence it iterates
+        (LOOP_RULES, by element kind and origin tag), a `while` walking the one symbolic byte string of its frame gets the
+        record-chain rule -- in the function under contract or in a helper executed in place."""
+        if self.contract is None:
+            return None
+        kind, it, st = getattr(self, "_loop_subject", (None, None, None))
+        if isinstance(node, ast.For) and kind == "for" and isinstance(it, VSeq) and isinstance(it.tag, tuple) and it.tag:
+            return LOOP_RULES.get((it.ekind, it.tag[0]))
+        if isinstance(node, ast.While) and kind == "while" and st is not None:
+            env = st.frames[-1].env
+            if len([v for v in env.values() if isinstance(v, VSeq) and v.is_bytes and isinstance(v.tag, tuple)]) == 1:
+                return LOOP_RULES.get(("while", "record-chain"))
+        return super().loop_spec(node)
+
+    @staticmethod
+    def _exit_assigned_only(body):
+        """Names whose every assignment in the loop body sits in a block that ends in break / return / raise (not inside a
+        nested loop): an iteration that assigned them has left the loop, so at every loop head and at normal exhaustion they
+        still have their entry value (`found = True; break`)."""
+        exits, others = set(), set()
+
+        def stores(node):
+            return {n.id for n in ast.walk(node) if isinstance(n, ast.Name) and isinstance(n.ctx, ast.Store)}
+
+        def walk(block, leaving):
+            leaves = leaving or (bool(block) and isinstance(block[-1], (ast.Break, ast.Return, ast.Raise)))
+            for stt in block:
+                if isinstance(stt, (ast.For, ast.While, ast.FunctionDef, ast.Try, ast.With)):
+                    others.update(stores(stt))
+                elif isinstance(stt, ast.If):
+                    others.update(stores(stt.test))
+                    walk(stt.body, False)
+                    walk(stt.orelse, False)
+                else:
+                    (exits if leaves else others).update(stores(stt))
+        walk(list(body), False)
+        return exits - others
+
     def havoc_loop_state(self, st, body, spec, extra_names=()):
+        keep = {k: st.lookup(k) for k in self._exit_assigned_only(body)}
+        r = self._havoc_loop_state(st, body, spec, extra_names)
+        for k, v in keep.items():
+            if v is not None:
+                st.bind(k, v)
+        return r
+
+    def _havoc_loop_state(self, st, body, spec, extra_names=()):
         # lists the body grows/shrinks (append/extend/insert/pop/remove/clear) do not keep their length
         for n in body:
             for sub in ast.walk(n):
@@ -475,23 +629,110 @@ class C08Executor(readfile.ReadFileExecutor):
 
     def e_GeneratorExp(self, n, st):
         from pyvc.ops import Unsupported
+        mark = len(self.sinks[-1])
         try:
-            return super().e_GeneratorExp(n, st)
+            return super().e_GeneratorExp(n, st.fork())   # on a copy: a failed attempt must leave no effects behind
         except Unsupported:
+            del self.sinks[-1][mark:]
             return self.lazy_generator(n, st)
+
+    def e_ListComp(self, n, st):
+        from pyvc.ops import Unsupported
+        mark = len(self.sinks[-1])
+        try:
+            return super().e_ListComp(n, st.fork())       # on a copy: a failed attempt must leave no effects behind
+        except Unsupported:
+            del self.sinks[-1][mark:]
+            return self.filtered_view(n, st)
+
+    def filtered_view(self, n, st):
+        """[elt for x in seq if cond(x)] over a symbolic sequence: the filtered subsequence, as a symbolic sequence of unknown
+        length m <= n whose i-th element is elt(seq[IDX(i)]) with IDX strictly increasing into the kept positions and ONTO them
+        (INV: every kept position occurs).  Conditions and element must be pure, non-forking, non-raising and must not create
+        fresh symbols (their value has to be a function of the position)."""
+        from pyvc.ops import Unsupported
+        from pyvc import values as _values
+        if len(n.generators) != 1:
+            raise Unsupported(f"{self.loc(n)} nested comprehension over a symbolic sequence")
+        g = n.generators[0]
+        r = self.ev(g.iter, st)                 # evaluated once, eagerly: its exceptional paths are real ones
+        if len(r) != 1 or not isinstance(r[0][1], VSeq):
+            raise Unsupported(f"{self.loc(n)} comprehension over non-sequence")
+        st, src = r[0]
+        s = st.fork()
+        mark = len(self.sinks[-1])
+        tick = next(_values._fresh)
+
+        def at(k):
+            """(keep condition, element value) at source position k -- evaluated on a scratch state"""
+            s2 = s.fork()
+            ss = self.assign(g.target, src.elem(k), s2)
+            if len(ss) != 1:
+                raise Unsupported(f"{self.loc(n)} forking target in comprehension")
+            s2, conds = ss[0], []
+            for cnd in g.ifs:
+                rr = self.ev(cnd, s2)
+                if len(rr) != 1:
+                    raise Unsupported(f"{self.loc(n)} forking condition in comprehension")
+                s2 = rr[0][0]
+                conds.append(self.truth(s2, rr[0][1]).t)
+            rr = self.ev(n.elt, s2)
+            if len(rr) != 1 or len(self.sinks[-1]) != mark:
+                del self.sinks[-1][mark:]
+                raise Unsupported(f"{self.loc(n)} forking / raising element in comprehension")
+            return z3.And(conds + [z3.BoolVal(True)]), rr[0][1]
+        k = z3.Int(fresh_name("k"))
+        keep_k, _probe = at(k)
+        after = next(_values._fresh)
+        # purity check: no symbol created while evaluating at position k may occur in the condition (except k itself)
+        seen, stack = set(), [keep_k]
+        while stack:
+            x = stack.pop()
+            if x.get_id() in seen:
+                continue
+            seen.add(x.get_id())
+            if z3.is_const(x) and x.decl().kind() == z3.Z3_OP_UNINTERPRETED and "!" in x.decl().name():
+                try:
+                    idx = int(x.decl().name().rsplit("!", 1)[1])
+                except ValueError:
+                    idx = -1
+                if tick < idx < after and not x.eq(k):
+                    raise Unsupported(f"{self.loc(n)} comprehension condition creates fresh symbols")
+            stack.extend(x.children())
+        m = z3.Int(fresh_name("m"))
+        IDX = z3.Function(fresh_name("kept_pos"), I, I)
+        INV = z3.Function(fresh_name("kept_rank"), I, I)
+        i_, j_ = z3.Int(fresh_name("i")), z3.Int(fresh_name("j"))
+        keep_at = lambda t: z3.substitute(keep_k, (k, t))
+        st.assume(z3.And(
+            m >= 0, m <= src.length,
+            z3.ForAll([i_], z3.Implies(z3.And(i_ >= 0, i_ < m), z3.And(IDX(i_) >= 0, IDX(i_) < src.length, keep_at(IDX(i_)))), patterns=[IDX(i_)]),
+            z3.ForAll([j_], z3.Implies(z3.And(j_ >= 0, j_ < src.length, keep_at(j_)), z3.And(INV(j_) >= 0, INV(j_) < m, IDX(INV(j_)) == j_)),
+                      patterns=[INV(j_)])))
+        tag = src.tag if isinstance(n.elt, ast.Name) and isinstance(g.target, ast.Name) and n.elt.id == g.target.id else None
+
+        def elem(t):
+            return at(IDX(t))[1] if tag is None else src.elem(IDX(t))
+        out = VSeq(m, elem, src.ekind if tag is not None else "?", False, tag=("filtered", src.tag, IDX, INV, keep_k, k) if tag is not None else None)
+        return [(st, out)]
 
     def lazy_generator(self, n, st):
         """Generator expression over symbolic sequences -> (bound variables, range condition, element) for any()/all().
-        Requires the element and the conditions to be pure, non-forking and non-raising."""
+        Requires the conditions to be non-forking and the element to be pure and non-raising (it may fork)."""
         from pyvc.ops import Unsupported
-        s = st.fork()
         vars_, conds = [], []
-        mark = len(self.sinks[-1])
-        for g in n.generators:
-            r = self.ev(g.iter, s)
+        s, mark = None, None
+        for gi, g in enumerate(n.generators):
+            r = self.ev(g.iter, st if gi == 0 else s)      # the first iterable is evaluated eagerly: its exceptional paths are real
             if len(r) != 1 or not isinstance(r[0][1], VSeq):
                 raise Unsupported(f"{self.loc(n)} generator over non-sequence")
-            s, it = r[0]
+            if gi == 0:
+                st = r[0][0]
+                s = st.fork()
+                mark = len(self.sinks[-1])
+                it = r[0][1]
+            else:
+                s, it = r[0]
             k = z3.Int(fresh_name("k"))
             vars_.append(k)
             conds.append(z3.And(k >= 0, k < it.length))
@@ -505,11 +746,22 @@ class C08Executor(readfile.ReadFileExecutor):
                     raise Unsupported(f"{self.loc(n)} forking condition in generator")
                 s = r[0][0]
                 conds.append(self.truth(s, r[0][1]).t)
+        base = len(s.pc)
         r = self.ev(n.elt, s)
-        if len(r) != 1 or len(self.sinks[-1]) != mark:
+        if not r or len(self.sinks[-1]) != mark:
             del self.sinks[-1][mark:]
-            raise Unsupported(f"{self.loc(n)} forking / raising element in generator")
-        return [(st, VGen(vars_, z3.And(conds), self.truth(r[0][0], r[0][1]).t))]
+            raise Unsupported(f"{self.loc(n)} raising element in generator")
+        # an element that forks (a helper with an early return, a conditional expression): the case split stays inside
+        # the quantifier -- the cases are exhaustive and exclusive path conditions added after `base`
+        cases = [z3.And([z3.BoolVal(True)] + list(s_.pc[base:]) + [self.truth(s_, v_).t]) for (s_, v_) in r]
+        return [(st, VGen(vars_, z3.And(conds), z3.Or(cases)))]
+
+    def b_setattr(self, st, args, kwargs, node):
+        """setattr(obj, "<literal or loop-unrolled name>", value) is the attribute store obj.<name> = value."""
+        nm = args[1].const() if len(args) == 3 and isinstance(args[1], VStr) else None
+        if nm is None:
+            return self.havoc_call(st, "setattr", args, node)
+        return [(s_, NONE) for s_ in self.store_attr(st, args[0], nm, args[2], node)]
 
     def b_reversed(self, st, args, kwargs, node):
         if args and isinstance(args[0], VSeq):
@@ -568,6 +820,7 @@ class C08Executor(readfile.ReadFileExecutor):
             st.heap[r] = HeapObj("unk", None, o.cls, o.fresh)
 
     def merge_states(self, states):
+        self._imprecise("state merge")
         for s_ in states:          # stream positions (raw z3 terms, irrelevant here) are forgotten at joins
             for k in [k for k in s_.ghost if isinstance(k, tuple) and k and k[0] == "pos"]:
                 del s_.ghost[k]
@@ -580,6 +833,7 @@ class C08Executor(readfile.ReadFileExecutor):
 
 
 EXECUTOR = C08Executor
+LOCK_OPTIONAL_KINDS = ("inv-init", "inv-preserve", "decreases")     # loop obligations exist only while the code has the loop
 EXECUTOR_KW = {}
 
 
@@ -636,6 +890,9 @@ def _spec_or_unknown(spec, name="file_like"):
     return r
 
 
+LOOP_RULES[("while", "record-chain")] = LoopSpec(inv=xls_loop_inv, label="record-chain", decreases=xls_loop_decreases)
+
+
 def detector_contracts(reg):
     out = []
     FL = [("file_like", p_ext("BytesIO"))]
@@ -655,7 +912,7 @@ def detector_contracts(reg):
     out.append(FnContract(
         target=f"{ENC}::is_xls_encrypted", params=FL, modifies=("file_like",),
         returns=_spec_or_unknown(spec_xls), raises=lib,
-        loops={0: LoopSpec(inv=xls_loop_inv, label="record-chain", decreases=xls_loop_decreases)},
+        loops={},
         note="legacy XLS: FILEPASS (0x002F) somewhere on the BIFF record chain of the Workbook/Book stream"))
     out.append(FnContract(
         target=f"{ZB}::open_zipfile", assumed=True,
@@ -725,7 +982,7 @@ def doc_contracts(reg):
     out = []
     for q in ("_DocReader._parse_content", "_DocReader.read"):
         t = f"{DOC}::{q}"
-        EXECUTOR_KW[t] = {"abstract": True, "inline_calls": False, "merge_after_check": True}
+        EXECUTOR_KW[t] = {"abstract": True, "inline_calls": False, "inline_local": True, "merge_after_check": True}
         out.append(FnContract(
             target=t, params=[("self", reader)], modifies=("self",),
             result_maker=lambda ex, st, ctx: VUnk("DocContent"),
@@ -801,7 +1058,7 @@ def doc_contracts(reg):
                       lambda c: z3.Implies(z3.And(z3.Or(from_detector(c), z3.BoolVal(own(c))), is_enc_err(c)), dsp(c)))],
         note="DOC: the parse (FIB check) precedes the first yield; its file-encrypted error is passed through unchanged")
     cd.on_yield = doc_on_yield
-    EXECUTOR_KW[t] = {"abstract": True, "inline_calls": False}
+    EXECUTOR_KW[t] = {"abstract": True, "inline_calls": False, "inline_local": True}
     out.append(cd)
     return out
 
@@ -820,7 +1077,7 @@ def m_infolist(ex, st, obj, args, kwargs, node):
     ex.exc_any(st.fork(), f"{ex.loc(node)} ZipFile.infolist")
     zf = obj.t
     st.ghost["infolist_ok"] = True
-    return [(st, VSeq(NZ(zf), lambda i: VExt("ZipInfo", INFO(zf, i)), "ZipInfo"))]
+    return [(st, VSeq(NZ(zf), lambda i: VExt("ZipInfo", INFO(zf, i)), "ZipInfo", tag=("infolist", zf)))]
 
 
 def m_seek2(ex, st, obj, args, kwargs, node):
@@ -831,26 +1088,62 @@ def m_seek2(ex, st, obj, args, kwargs, node):
     return common.m_seek(ex, st, obj, args, kwargs, node)
 
 
+_AES_SIGNAL_CACHE = {}
+SHAPE_NOTES = []          # why a model had to fall back to its weakest form in this process (-> refutations are not definite)
+
+
 def aes_signal(repo=None):
-    """(class name raised by _apply_decoder in its AES branch, dedicated?) -- read from the AST of the checked tree.
-    `dedicated`: a strict subclass of Bad7zFile that no other `raise` of sevenzip.py uses, so that it identifies encryption."""
+    """(class that _apply_decoder raises for an AES coder, dedicated?).  Found by EXECUTING the real _apply_decoder (helpers in
+    place) on a coder id with the AES prefix and collecting what its own `raise` statements raise -- not by matching the text
+    of its branches.  `dedicated`: a strict subclass of Bad7zFile with a single raise site in sevenzip.py, so that it
+    identifies encryption.  Unrecognised -> ("Bad7zFile", False), the weakest model, and a SHAPE_NOTES entry."""
+    key = repo or loader.REPO
+    if key in _AES_SIGNAL_CACHE:
+        return _AES_SIGNAL_CACHE[key]
+    _AES_SIGNAL_CACHE[key] = ("Bad7zFile", False)          # (re-entrancy: the executor below consults aes_signal in exc_any)
     try:
+        from pyvc.contracts import Registry
+        from pyvc.exctypes import Universe
+        from pyvc.state import Frame, State
         m = loader.module(SEVEN, repo)
         f = m.functions.get("SevenZipReader._apply_decoder")
-        name = None
-        for n in ast.walk(f):
-            if isinstance(n, ast.If) and "CODER_AES_PREFIX" in ast.unparse(n.test):
-                for r in n.body:
-                    if isinstance(r, ast.Raise) and isinstance(r.exc, ast.Call):
-                        name = dotted(r.exc.func)
-        if not name:
-            return "Bad7zFile", False
-        uses = [n for n in ast.walk(m.tree) if isinstance(n, ast.Raise) and isinstance(n.exc, ast.Call) and dotted(n.exc.func) == name]
+        reg = Registry()
+        install_container_models(reg)
+        install_archive_models(reg)
+        uni = Universe(key)
+        ex = C08Executor(m, reg, uni, abstract=True, inline_calls=False, inline_local=True)
+        st = State()
+        cid = VExt("CoderId")
+        env = {a.arg: VUnk(a.arg) for a in f.args.args}
+        names = [a.arg for a in f.args.args]
+        env[names[1] if len(names) > 1 else "coder_id"] = cid
+        st.frames = [Frame(env, None, f)]
+        st.assume(is_aes(cid.t))
+        ex.cur_fn_stack.append(f)
+        ex.sinks.append([])
+        try:
+            outs = ex.exec_block(f.body, st)
+        finally:
+            sink = ex.sinks.pop()
+            ex.cur_fn_stack.pop()
+        raised = [(o.st, o.val) for o in outs if o.kind == "raise"] + list(sink)
+        own_cls = set()
+        for (_s, e) in raised:
+            if "site" in e.attrs or "from_callee" in e.attrs:
+                continue
+            own_cls.add(uni.names[e.tidx.as_long()] if z3.is_int_value(e.tidx) else None)
+        returns = [o for o in outs if o.kind in ("return", "fall") and ex.feasible(o.st.pc)]
+        if len(own_cls) != 1 or None in own_cls or returns:
+            SHAPE_NOTES.append(f"aes_signal: _apply_decoder on an AES coder: own raises {sorted(map(str, own_cls))}, {len(returns)} normal path(s)")
+            return _AES_SIGNAL_CACHE[key]
+        name = own_cls.pop()
+        uses = [n for n in ast.walk(m.tree) if isinstance(n, ast.Raise) and n.exc is not None and dotted(n.exc.func if isinstance(n.exc, ast.Call) else n.exc) == name]
         cls = m.classes.get(name)
         strict = cls is not None and any(ast.unparse(b) == "Bad7zFile" for b in cls.bases)
-        return name, bool(strict and len(uses) == 1)
-    except Exception:  # noqa
-        return "Bad7zFile", False
+        _AES_SIGNAL_CACHE[key] = (name, bool(strict and len(uses) == 1))
+    except Exception as e:  # noqa  (a pack bug or an unexpected shape must not become an alarm)
+        SHAPE_NOTES.append(f"aes_signal: {type(e).__name__}: {e}")
+    return _AES_SIGNAL_CACHE[key]
 
 
 def _exc_any_unless_signal(ex, st, site, aes_cond):
@@ -922,7 +1215,8 @@ def install_archive_models(reg):
     reg.method_models[("SevenZipFile", "needs_password")] = m_7z_needs_password
     reg.method_models[("SevenZipFile", "extractall")] = m_7z_extractall
     reg.method_models[("SevenZipFile", "list")] = lambda ex, st, o, a, k, n: (_exc_any_unless_signal(ex, st.fork(), "SevenZipFile.list", z3.BoolVal(False)), [(st, VUnk("file_list"))])[1]
-    reg.attr_models[("Folder", "coders")] = lambda ex, st, o: VSeq(NCOD(o.t), lambda j: VTuple([VExt("CoderId", CID(o.t, j)), VUnk("props")]), "tuple")
+    reg.attr_models[("Folder", "coders")] = lambda ex, st, o: VSeq(NCOD(o.t), lambda j: VTuple([VExt("CoderId", CID(o.t, j)), VUnk("props")]), "tuple",
+                                                                   tag=("coders", o.t))
     reg.method_models[("CoderId", "startswith")] = m_cid_startswith
     reg.attr_models[("Folder", "unpack_sizes")] = lambda ex, st, o: VUnk("unpack_sizes")
     # os.path.basename on a str: ASSUMED total and pure
@@ -968,7 +1262,7 @@ def archive_contracts(reg):
         return ZIP_OF(c.args["file_like"].t)
 
     def zip_inv(lc):
-        zf = ZIP_OF(lc.entry.lookup("file_like").t)
+        zf = lc.seq.tag[1]
         j = z3.Int("j!zinv")
         g = lc.st.ghost
         return z3.And(z3.ForAll([j], z3.Implies(z3.And(j >= 0, j < lc.i), z3.Or(ISDIR(INFO(zf, j)), z3.Extract(0, 0, FLAG(INFO(zf, j))) == 0)),
@@ -991,7 +1285,7 @@ def archive_contracts(reg):
         raises=[Raises("Exception", sub=True)],
         exc_ensures=[("flagged-member-implies-encrypted-error-before-any-read-or-result", zip_if),
                      ("encrypted-error-only-if-some-member-has-flag-bit-0", zip_only_if)],
-        loops={0: LoopSpec(inv=zip_inv, label="flag-scan")},
+        loops={},
         note="ZIP: a non-directory member with general-purpose flag bit 0 <=> file-encrypted error, before any zf.read / yield")
 
     def zip_on_read(ex, st, obj, node):
@@ -1003,7 +1297,7 @@ def archive_contracts(reg):
         ex.add_vc("typestate", "no-result-before-every-flag-was-checked", st.pc,
                   z3.Not(spec_zip_enc(zf)) if zf is not None else z3.BoolVal(False), loc=ex.loc(node))
     cz.on_zip_read, cz.on_yield = zip_on_read, zip_on_yield
-    EXECUTOR_KW[t] = {"abstract": True, "inline_calls": False}
+    EXECUTOR_KW[t] = {"abstract": True, "inline_calls": False, "inline_local": True}
     out.append(cz)
 
     # ---------------- 7z extractor
@@ -1049,20 +1343,20 @@ def archive_contracts(reg):
         ex.add_vc("typestate", "no-result-before-needs_password-returned-false", st.pc,
                   z3.And(z3.BoolVal(bool(st.ghost.get("needs_password_called"))), z3.Not(spec_7z_folders_enc(RV_OF(SZ_OF(f))))), loc=ex.loc(node))
     c7.on_extractall, c7.on_yield = z7_on_extractall, z7_on_yield
-    EXECUTOR_KW[t] = {"abstract": True, "inline_calls": False}
+    EXECUTOR_KW[t] = {"abstract": True, "inline_calls": False, "inline_local": True}
     out.append(c7)
 
     # ---------------- sevenzip.py: needs_password / _apply_decoder
     def folders_maker():
         def mk(ex, st, name):
             rv = z3.Const(name.replace(".", "_") + "_view", RView)
-            return [(NFOLD(rv) >= 0, VSeq(NFOLD(rv), lambda i: VExt("Folder", FOLDER(rv, i)), "Folder", tag=rv))]
+            return [(NFOLD(rv) >= 0, VSeq(NFOLD(rv), lambda i: VExt("Folder", FOLDER(rv, i)), "Folder", tag=("folders", rv)))]
         return Maker(mk, desc="list[Folder] of symbolic length, each with a coder list of symbolic length")
 
     READER = p_obj("SevenZipReader", {"_folders": folders_maker()})
 
     def view(c, name="self"):
-        return c.entry.obj(c.args[name].ref).data["_folders"].tag
+        return c.entry.obj(c.args[name].ref).data["_folders"].tag[1]
 
     out.append(FnContract(
         target=f"{SEVEN}::SevenZipReader.needs_password", params=[("self", READER)],
@@ -1071,7 +1365,7 @@ def archive_contracts(reg):
 
     def szf_reader(c):
         r = c.entry.obj(c.args["self"].ref).data["_reader"]
-        return None if r is NONE else c.entry.obj(r.ref).data["_folders"].tag
+        return None if r is NONE else c.entry.obj(r.ref).data["_folders"].tag[1]
 
     out.append(FnContract(
         target=f"{SEVEN}::SevenZipFile.needs_password",
@@ -1091,7 +1385,7 @@ def archive_contracts(reg):
                          z3.And(z3.BoolVal(own(c) and aes_signal(c.ex.module.repo)[1]), c.ex.uni.subclass_term(c.exc.tidx, aes_signal(c.ex.module.repo)[0])
                                 if c.ex.uni.known(aes_signal(c.ex.module.repo)[0]) else z3.BoolVal(False)), is_aes(c.args["coder_id"].t)))],
         note="an AES coder is never decoded / passed through: Bad7zFile"))
-    EXECUTOR_KW[f"{SEVEN}::SevenZipReader._apply_decoder"] = {"abstract": True, "inline_calls": False}
+    EXECUTOR_KW[f"{SEVEN}::SevenZipReader._apply_decoder"] = {"abstract": True, "inline_calls": False, "inline_local": True}
 
     # _decompress_folder: the coder chain of a folder (also of the encoded header's folder) is decoded through _apply_decoder,
     # coder by coder -- data comes back only if NO coder of the folder is AES
@@ -1100,13 +1394,29 @@ def archive_contracts(reg):
         return z3.Exists([j], z3.And(j >= 0, j < (NCOD(fo) if upto is None else upto), is_aes(CID(fo, j))))
 
     def dec_inv(lc):
-        fo = lc.entry.lookup("folder")
-        if not isinstance(fo, VExt):
-            return z3.BoolVal(False)
+        fo = lc.seq.tag[1][1]          # reversed(folder.coders)
         j = z3.Int("j!dinv")
-        n = NCOD(fo.t)
+        n = NCOD(fo)
         # the coders already applied (the last lc.i of the chain) are not AES
-        return z3.ForAll([j], z3.Implies(z3.And(j >= n - lc.i, j < n), z3.Not(is_aes(CID(fo.t, j)))), patterns=[CID(fo.t, j)])
+        return z3.ForAll([j], z3.Implies(z3.And(j >= n - lc.i, j < n), z3.Not(is_aes(CID(fo, j)))), patterns=[CID(fo, j)])
+
+    def dec_fwd_inv(lc):
+        fo = lc.seq.tag[1]             # folder.coders in forward order
+        j = z3.Int("j!dinv")
+        return z3.ForAll([j], z3.Implies(z3.And(j >= 0, j < lc.i), z3.Not(is_aes(CID(fo, j)))), patterns=[CID(fo, j)])
+
+    def folders_inv(lc):
+        rv = lc.seq.tag[1]
+        i_, j = z3.Int("i!finv"), z3.Int("j!finv")
+        return z3.ForAll([i_, j], z3.Implies(z3.And(i_ >= 0, i_ < lc.i, j >= 0, j < NCOD(FOLDER(rv, i_))), z3.Not(is_aes(CID(FOLDER(rv, i_), j)))),
+                         patterns=[CID(FOLDER(rv, i_), j)])
+
+    LOOP_RULES.update({
+        ("tuple", "reversed"): LoopSpec(inv=dec_inv, label="coder-chain"),
+        ("tuple", "coders"): LoopSpec(inv=dec_fwd_inv, label="coder-chain"),
+        ("Folder", "folders"): LoopSpec(inv=folders_inv, label="folders"),
+        ("ZipInfo", "infolist"): LoopSpec(inv=zip_inv, label="flag-scan"),
+    })
 
     def dec_signal_only_aes(c):
         name, dedicated = aes_signal(c.ex.module.repo)
@@ -1123,9 +1433,9 @@ def archive_contracts(reg):
         ensures=[("decoded-data-only-if-no-coder-of-the-folder-is-aes", lambda c: z3.Not(folder_has_aes(c.args["folder"].t)))],
         raises=[Raises("Exception", sub=True)],
         exc_ensures=[("encryption-signal-only-if-some-coder-is-aes", dec_signal_only_aes)],
-        loops={0: LoopSpec(inv=dec_inv, label="coder-chain")},
+        loops={},
         note="every coder of the chain goes through _apply_decoder (contract: an AES coder never returns data)"))
-    EXECUTOR_KW[t] = {"abstract": True, "inline_calls": False}
+    EXECUTOR_KW[t] = {"abstract": True, "inline_calls": False, "inline_local": True}
     return out
 
 
@@ -1178,7 +1488,7 @@ def m_xml_findall(ex, st, obj, args, kwargs, node):
     if a != XMLENC_ED_PATH:
         return ex.havoc_call(st, "Element.findall", args, node)
     st.assume(NED(obj.t) >= 0)
-    return [(st, VSeq(NED(obj.t), lambda j: VExt("XmlElem", EDAT(obj.t, j)), "XmlElem"))]
+    return [(st, VSeq(NED(obj.t), lambda j: VExt("XmlElem", EDAT(obj.t, j)), "XmlElem", tag=("EncryptedData", obj.t)))]
 
 
 XMLENC_METHOD_PATH = "{http://www.w3.org/2001/04/xmlenc#}EncryptionMethod"
@@ -1209,12 +1519,12 @@ def m_xml_get(ex, st, obj, args, kwargs, node):
 
 
 def epub_loop_inv(lc):
-    ctx = lc.entry.lookup("ctx")
-    if not isinstance(ctx, VExt):
-        return z3.BoolVal(False)
-    root = ROOT(ctx.t, sv(ENCXML))
+    root = lc.seq.tag[1]
     j = z3.Int("j!einv")
     return z3.ForAll([j], z3.Implies(z3.And(j >= 0, j < lc.i), font_obfuscation(EDAT(root, j))), patterns=[EDAT(root, j)])
+
+
+LOOP_RULES[("XmlElem", "EncryptedData")] = LoopSpec(inv=epub_loop_inv, label="entries")
 
 
 def new_epub_ctx(ex, st, args, kwargs, node):
@@ -1237,7 +1547,7 @@ def epub_contracts(reg):
     return [FnContract(
         target=f"{EPUB}::_is_epub_encrypted", params=[("ctx", p_ext("EpubContext"))], raises=[],
         result_maker=lambda ex, st, ctx: VBool(z3.Bool(fresh_name("epub_encrypted"))),
-        loops={0: LoopSpec(inv=epub_loop_inv, label="entries")},      # (used only if the function has a loop over the entries)
+        loops={},
         ensures=[("drm-protected-epub-is-detected",
                   lambda c: z3.Implies(z3.And(readable(c), spec_epub_drm(_ft(c, "ctx"))), c.result.t) if _ft(c, "ctx") is not None else z3.BoolVal(True)),
                  ("true-only-if-drm-protected",
@@ -1261,6 +1571,9 @@ def new_pdfreader(ex, st, args, kwargs, node):
 def m_pdf_decrypt(ex, st, obj, args, kwargs, node):
     """PdfReader.decrypt(pw): ASSUMED to raise anything or return 0 (password rejected) / 1 / 2."""
     pw = args[0].const() if args and isinstance(args[0], VStr) else None
+    h = getattr(ex.contract, "on_decrypt", None)
+    if h is not None:
+        h(ex, st, obj, node)
     bad = st.fork()
     bad.ghost["decrypt_raised"] = True
     bad.ghost["decrypt_called_on"] = Term(obj.t) if pw == "" else None
@@ -1351,7 +1664,7 @@ def aes_patch_contract(reg):
     t = f"{AESFB}::patch_pypdf_fallback_aes"
     return FnContract(
         target=t, params=[], raises=[],
-        result_maker=lambda ex, st, ctx: VBool(z3.Bool(fresh_name("patched"))),
+        result_maker=lambda ex, st, ctx: (st.ghost.__setitem__("aes_ensured", True), VBool(z3.Bool(fresh_name("patched"))))[1],
         ensures=[("true-iff-fallback-provider-and-then-every-importer-of-the-aes-names-is-rebound",
                   lambda c: post(c) if isinstance(c.result, VBool) and c.result.const() is not None else z3.BoolVal(True))],
         note="returns True exactly on pypdf's fallback provider, and then aes_{ecb,cbc}_{encrypt,decrypt} and CryptAES resolve to the "
@@ -1372,7 +1685,7 @@ def pdf_contracts(reg):
         returns=lambda c: (c.st.ghost.__setitem__("reader_opened", True), VExt("PdfReader", READER_OF(_ft(c))) if _ft(c) is not None else VExt("PdfReader"))[1],
         raises=[Raises("Exception", sub=True)],
         note="a reader over the given bytes (retry with the built-in AES after a DependencyError)"))
-    EXECUTOR_KW[t] = {"abstract": True, "inline_calls": False}
+    EXECUTOR_KW[t] = {"abstract": True, "inline_calls": False, "inline_local": True}
 
     def R(c):
         return READER_OF(c.args["file_like"].t)
@@ -1416,8 +1729,12 @@ def pdf_contracts(reg):
         ok = f is not None and obj.t.eq(READER_OF(f))
         ex.add_vc("dataflow", "pages-are-read-from-the-reader-that-passed-the-decrypt-check", st.pc,
                   z3.And(z3.BoolVal(ok), checked(ex, st, obj.t)) if ok else z3.BoolVal(False))
-    cp.on_yield, cp.on_pages = pdf_on_yield, pdf_on_pages
-    EXECUTOR_KW[t] = {"abstract": True, "inline_calls": False, "merge_after_check": True}
+    def pdf_on_decrypt(ex, st, obj, node):
+        # AES-128 files pass the constructor without AES: the built-in AES must have been installed on every path to decrypt()
+        ex.add_vc("typestate", "aes-provider-ensured-before-decrypt", st.pc, z3.BoolVal(bool(st.ghost.get("aes_ensured"))), loc=ex.loc(node),
+                  note=f"{ex.loc(node)} reader.decrypt reachable without patch_pypdf_fallback_aes() having been called")
+    cp.on_yield, cp.on_pages, cp.on_decrypt = pdf_on_yield, pdf_on_pages, pdf_on_decrypt
+    EXECUTOR_KW[t] = {"abstract": True, "inline_calls": False, "inline_local": True, "merge_after_check": True}
     out.append(cp)
     return out
 
@@ -1490,7 +1807,7 @@ def typestate_contracts(reg, detectors):
                               lambda c: z3.Implies(z3.And(z3.BoolVal(own(c)), is_enc_err(c)), z3.And(ret(c), sp(c))))],
                 note="every path to the first yield passes the detector; a True result raises the file-encrypted error")
             c.on_yield = on_yield
-            EXECUTOR_KW[c.target] = {"abstract": True, "inline_calls": False, "merge_after_check": True}
+            EXECUTOR_KW[c.target] = {"abstract": True, "inline_calls": False, "inline_local": True, "merge_after_check": True}
             return c
         out.append(mk())
     return out
@@ -1521,7 +1838,7 @@ def readfile_contracts(reg):
         raises=[Raises("Exception", sub=True)],
         exc_ensures=[("file-encrypted-error-of-the-extractor-is-never-wrapped", not_wrapped)],
         note="entry point: `except ExtractionError: raise` lets the extractor's ExtractionFileEncryptedError escape as such"))
-    EXECUTOR_KW[t] = {"abstract": True, "inline_calls": False}
+    EXECUTOR_KW[t] = {"abstract": True, "inline_calls": False, "inline_local": True}
     return out
 
 
@@ -1551,32 +1868,6 @@ def _canon(mod, call):
 
 def policy(repo, tier):
     obls, fns = [], []
-    # P1 (second opinion on the typestate, over the real AST, no SMT): every yield of the extractor is dominated by the
-    #    False branch of `if <detector>(...)`, and the True branch ends in `raise ExtractionFileEncryptedError(...)`.
-    for (rel, fn, det, _spec) in EXTRACTORS:
-        short = rel.split("/")[-1]
-        oid = f"C08/{short}::{fn}/policy#detector-dominates-every-yield"
-        m = loader.module(rel, repo)
-        f = m.functions.get(fn)
-        dname = det.split("::")[-1]
-        if f is None:
-            obls.append(ground_obligation(oid, False, "function missing", rel, definite=False))
-            continue
-        tests = [n for n in ast.walk(f) if isinstance(n, ast.If) and isinstance(n.test, ast.Call) and dotted(n.test.func).split(".")[-1] == dname]
-        if not tests:
-            obls.append(ground_obligation(oid, False, f"no `if {dname}(...)` in {fn}: shape not recognised", rel, definite=False))
-            continue
-        bad_branch = [t for t in tests if not (t.body and isinstance(t.body[-1], ast.Raise) and t.body[-1].exc is not None
-                                               and ENCERR in ast.unparse(t.body[-1].exc))]
-        mf = MustFacts(gen_cond=lambda test, branch, dname=dname: ["not-encrypted"] if (branch is False and isinstance(test, ast.Call)
-                                                                                        and dotted(test.func).split(".")[-1] == dname) else [],
-                       need=lambda n: [("not-encrypted", f"line {n.lineno}")] if isinstance(n, (ast.Yield, ast.YieldFrom)) else [])
-        res = mf.run(f)
-        ok = bool(res) and all(r.ok for r in res) and not bad_branch
-        why = "; ".join([f"yield at {r.desc} not dominated by a negative {dname} result" for r in res if not r.ok] +
-                        [f"True branch at line {t.lineno} does not end in raise {ENCERR}" for t in bad_branch]) or f"{len(res)} yield(s) dominated"
-        obls.append(ground_obligation(oid, ok, why, rel))
-        fns.append(dict(m.fn_info(fn), obligations=1))
     # P2: read_doc: the parse (doc.read()) dominates the yield; the reader is fresh (constructed in read_doc, _content None in __init__)
     m = loader.module(DOC, repo)
     f = m.functions.get("read_doc")
@@ -1592,7 +1883,7 @@ def policy(repo, tier):
                         and isinstance(n.value, ast.Constant) and n.value.value is None for n in ast.walk(init))
         ok = bool(res) and all(r.ok for r in res) and fresh and none_init
         why = f"{len(res)} yield(s); parse dominates={all(r.ok for r in res)}; fresh reader={fresh}; __init__ sets _content=None: {none_init}"
-    obls.append(ground_obligation("C08/doc_extractor.py::read_doc/policy#parse-of-a-fresh-reader-dominates-the-yield", ok, why, DOC, definite=False if not ok and (f is None or init is None) else True))
+    obls.append(ground_obligation("C08/doc_extractor.py::read_doc/policy#parse-of-a-fresh-reader-dominates-the-yield", ok, why, DOC, definite=False))
     # P3: 7z: an AES-coded header reaches _apply_decoder while the reader is constructed (call chain, syntactic)
     m = loader.module(SEVEN, repo)
     chain = ["SevenZipReader.__init__", "SevenZipReader._parse_header", "SevenZipReader._parse_end_header", "SevenZipReader._parse_encoded_header",
@@ -1607,22 +1898,6 @@ def policy(repo, tier):
         missing.append("SevenZipFile.__enter__ -> SevenZipReader()")
     obls.append(ground_obligation("C08/sevenzip.py::SevenZipReader/policy#encoded-header-is-decoded-through-_apply_decoder", not missing,
                                   "; ".join(missing) or "call chain present", SEVEN, definite=False))
-    # P4: PDF: the AES provider is ensured before an encrypted reader is decrypted / read (else an empty-password AES-128 PDF
-    #     fails with DependencyError instead of extracting like its unencrypted original)
-    m = loader.module(PDF, repo)
-    f = m.functions.get("read_pdf")
-    ok, why = False, "read_pdf missing"
-    if f is not None:
-        mf = MustFacts(gen=lambda call: ["aes-provider-ensured"] if dotted(call.func).split(".")[-1] == "patch_pypdf_fallback_aes" else [],
-                       need=lambda n: [("aes-provider-ensured", f"line {n.lineno}")] if isinstance(n, ast.Call) and isinstance(n.func, ast.Attribute)
-                       and n.func.attr == "decrypt" else [])
-        res = mf.run(f)
-        ok = bool(res) and all(r.ok for r in res)
-        why = "; ".join(f"reader.decrypt at {r.desc}: the built-in AES is installed only if PdfReader() itself raised DependencyError" for r in res if not r.ok) \
-            or f"{len(res)} decrypt site(s) dominated"
-        fns.append(dict(m.fn_info("read_pdf"), obligations=1))
-    obls.append(ground_obligation("C08/pdf_extractor.py::read_pdf/policy#aes-provider-ensured-before-decrypt", ok, why, PDF,
-                                  definite=bool(f is not None)))
     # P5: entry point "attachments of an e-mail": the file-encrypted error of an attachment's extractor is passed on, not
     #     swallowed by the per-attachment `except Exception` (handler order on the real AST)
     DT = X + "data_types.py"
@@ -1638,19 +1913,23 @@ def policy(repo, tier):
         else:
             from pyvc.exctypes import Universe
             uni_ = Universe(repo or loader.REPO)
-            verdict, why = None, "no handler catches the error: it propagates"
+            verdict, why, swallows = None, "no handler catches the error: it propagates", False
             for h in tries[0].handlers:
                 names = [ast.unparse(e).split(".")[-1] for e in (h.type.elts if isinstance(h.type, ast.Tuple) else [h.type])] if h.type is not None else ["BaseException"]
                 if any(uni_.known(n) and uni_.is_subclass(ENCERR, n) for n in names):
-                    passes = bool(h.body) and isinstance(h.body[-1], ast.Raise) and (h.body[-1].exc is None or ENCERR in ast.unparse(h.body[-1].exc)) \
-                        and not any(isinstance(n, (ast.Return, ast.Continue, ast.Break)) for b in h.body for n in ast.walk(b))
+                    last = h.body[-1] if h.body else None
+                    passes = isinstance(last, ast.Raise) and (last.exc is None or ENCERR in ast.unparse(last.exc) or (h.name and ast.unparse(last.exc) == h.name)) \
+                        and not any(isinstance(n, (ast.Return, ast.Continue, ast.Break, ast.Try)) for b in h.body for n in ast.walk(b))
+                    swallows = not any(isinstance(n, ast.Raise) for b in h.body for n in ast.walk(b))
                     verdict, why = passes, f"first matching handler `except {', '.join(names)}` at line {h.lineno} " + ("re-raises" if passes else "does not re-raise it")
                     break
             outer = [t for t in ast.walk(f) if isinstance(t, ast.Try) and t is not tries[0] and any(n is tries[0] for n in ast.walk(t)) and t.handlers]
             if outer:
                 obls.append(ground_obligation(oid, False, "enclosing try with handlers: shape not recognised", DT, definite=False))
             else:
-                obls.append(ground_obligation(oid, verdict is not False, why, DT))
+                # definite only when the first matching handler has no `raise` at all (it visibly swallows the error);
+                # any other unrecognised shape is left to the native replayer (protected attachments)
+                obls.append(ground_obligation(oid, verdict is not False, why, DT, definite=bool(verdict is False and swallows)))
         fns.append(dict(m.fn_info("EmailContent.iterate_supported_attachments"), obligations=1))
     return {"obligations": obls, "functions": fns}
 
@@ -1681,6 +1960,27 @@ def view_validation(repo, tier):
 
 
 EXTRA = [policy, view_validation]
+
+
+def post_report(c, rep):
+    """A refuted VC is a counterexample only if the path it lies on is exact.  Functions executed in abstract mode (un-contracted
+    callees / unsupported expressions havocked, EXC-ANY), with a loop cut without invariant, with merged states, or with a model
+    that fell back to its weakest form (SHAPE_NOTES) over-approximate the code: their refutations become `unknown`, and
+    REPLAY_UNKNOWN hands them to the native replayer -- a reproduced failing input makes a VIOLATION, nothing else does."""
+    kw = EXECUTOR_KW.get(c.target) or {}
+    why = []
+    if kw.get("abstract"):
+        why.append("abstract execution (EXC-ANY / havocked callees)")
+    why += sorted(set(getattr(c, "_imprecise", [])))[:3]
+    if getattr(rep, "abstracted", None):
+        why.append("abstracted expression: " + str(rep.abstracted[0])[:80])
+    why += [n[:120] for n in SHAPE_NOTES[:2]]
+    if not why:
+        return
+    for o in rep.obligations:
+        if o.get("status") == "refuted":
+            o["status"] = "unknown"
+            o["reason"] = ("refuted on an over-approximated path (" + "; ".join(why) + "): not a definite counterexample. " + (o.get("reason") or ""))[:600]
 
 
 def bounded_chain_check():
